@@ -377,6 +377,8 @@ void C18Exec::concurrent(const SchedConfig &scIn, C18Outcome &out) {
             size_t spanIdx = spans.size() - 1;
             ExecOpts eo;
             eo.shared = s.shared;
+            // errno holds whatever earlier calls on this thread left in it; alone the call starts with 0
+            eo.entryErrno = entryErrnoFor(mix2(cs.caseSeed, op.hash()) + (uint64_t)t);
             OpHeapCtx &c = ctxs[(size_t)t];
             c.begin(t, ++g_opIdCounter, fillSeedOf(cs.caseSeed, t, (int)i), op.fault);
             heapBind(&c);
@@ -473,7 +475,8 @@ void C18Exec::concurrent(const SchedConfig &scIn, C18Outcome &out) {
                     "I3-result-differs", op, t, (int)i,
                     "interleaved result " + s.got.brief() +
                         " differs from the result of the same call executed alone " +
-                        s.expected.brief(),
+                        s.expected.brief() + " (errno on entry " +
+                        std::to_string(entryErrnoFor(mix2(cs.caseSeed, op.hash()) + (uint64_t)t)) + "; alone 0)",
                     ""));
             else if (!s.got.guardsOk)
                 out.violations.push_back(mkViolation(
